@@ -381,7 +381,9 @@ class MultiPhaseReservoir(SinglePhaseReservoir):
 
 def _is_solved(a_matrix: sparse.spmatrix, x: ndarray, b: ndarray) -> bool:
     """Check the true residual of an iterative solve against what was asked of it."""
-    return np.linalg.norm(a_matrix @ x - b) <= _ATOL + _RESIDUAL_RTOL * np.linalg.norm(b)
+    # relative to the right-hand side only: the scaled pseudopressure of a liquid table is of
+    # order 1e-6, and a depleted profile is smaller still
+    return np.linalg.norm(a_matrix @ x - b) <= _RESIDUAL_RTOL * np.linalg.norm(b)
 
 
 def _build_matrix(kt_h2: ndarray) -> sparse.spmatrix:
